@@ -52,6 +52,8 @@ pub enum ArrDesc {
     Jittered(Box<ArrDesc>, u64),
     Propagated(Box<ArrDesc>, u64),
     Vec(Vec<ArrDesc>),
+    /// the same superposition handed over as a boxed slice (`impl ArrivalBound for [T]`)
+    Slice(Vec<ArrDesc>),
     SumOf(Box<ArrDesc>, Box<ArrDesc>),
     Rc(Box<ArrDesc>),
     Never,
@@ -103,6 +105,11 @@ impl ArrDesc {
                 let parts: Vec<Box<dyn ArrivalBound>> = v.iter().map(|a| a.build()).collect();
                 Box::new(parts)
             }
+            ArrDesc::Slice(v) => {
+                let parts: Vec<Box<dyn ArrivalBound>> = v.iter().map(|a| a.build()).collect();
+                let boxed: Box<[Box<dyn ArrivalBound>]> = parts.into_boxed_slice();
+                Box::new(boxed)
+            }
             ArrDesc::SumOf(a, b) => Box::new(arrival::sum_of(a.build(), b.build())),
             ArrDesc::Rc(a) => {
                 let inner: Rc<dyn ArrivalBound> = Rc::from(a.build());
@@ -119,7 +126,7 @@ impl ArrDesc {
             ArrDesc::Jittered(a, _) | ArrDesc::Propagated(a, _) | ArrDesc::Rc(a) => {
                 a.contains_prefix()
             }
-            ArrDesc::Vec(v) => v.iter().any(|a| a.contains_prefix()),
+            ArrDesc::Vec(v) | ArrDesc::Slice(v) => v.iter().any(|a| a.contains_prefix()),
             ArrDesc::SumOf(a, b) => a.contains_prefix() || b.contains_prefix(),
             _ => false,
         }
@@ -135,6 +142,7 @@ impl ArrDesc {
             ArrDesc::Jittered(..) => "clone_with_jitter",
             ArrDesc::Propagated(..) => "Propagated",
             ArrDesc::Vec(_) => "Vec",
+            ArrDesc::Slice(_) => "slice",
             ArrDesc::SumOf(..) => "sum_of",
             ArrDesc::Rc(_) => "Rc",
             ArrDesc::Never => "Never",
@@ -160,6 +168,7 @@ impl fmt::Display for ArrDesc {
             ArrDesc::Jittered(a, j) => write!(f, "J({},{})", a, j),
             ArrDesc::Propagated(a, j) => write!(f, "G({},{})", a, j),
             ArrDesc::Vec(v) => write!(f, "V[{}]", join(v, "|")),
+            ArrDesc::Slice(v) => write!(f, "L[{}]", join(v, "|")),
             ArrDesc::SumOf(a, b) => write!(f, "U({},{})", a, b),
             ArrDesc::Rc(a) => write!(f, "R({})", a),
             ArrDesc::Never => write!(f, "N"),
@@ -377,12 +386,13 @@ impl<'a> Parser<'a> {
                     ArrDesc::Propagated(Box::new(a), j)
                 })
             }
-            Some(b'V') => {
+            Some(c @ (b'V' | b'L')) => {
                 self.expect(b'[')?;
                 let mut v = Vec::new();
+                let wrap = |v: Vec<ArrDesc>| if c == b'V' { ArrDesc::Vec(v) } else { ArrDesc::Slice(v) };
                 if self.peek() == Some(b']') {
                     self.pos += 1;
-                    return Ok(ArrDesc::Vec(v));
+                    return Ok(wrap(v));
                 }
                 loop {
                     v.push(self.arrival()?);
@@ -394,7 +404,7 @@ impl<'a> Parser<'a> {
                         }
                     }
                 }
-                Ok(ArrDesc::Vec(v))
+                Ok(wrap(v))
             }
             Some(b'U') => {
                 self.expect(b'(')?;
